@@ -39,6 +39,41 @@ def main():
             rep.count("rejected")
             rep.bad(vd["key"], vd["detail"], {"call": vd["detail"], "verdict": vd})
     rep.cov["traces_validated_against_impl"] = n
+    # translator side of the read filter: with an empty item in the program every numeric DATA item is re-spelled as a string;
+    # the string must denote the number the source spelled (spec/DataText.tla, normal form on digit sequences)
+    mant = ["0", "1", "12", "255", "1.5", ".5", "0.25", "100", "1.25", "6.25", ".0000004", "0.0000125", "123456", "99999999", "1.000001", "12.", "0.1", "3.14159"]
+    exps = ["", "E0", "E1", "E-1", "E3", "E-3", "E-5", "E-7", "E9", "E+9", "E16", "E-12", "E22"] + (["E-20", "E30", "E-4", "E4", "E15", "E17"] if thorough else [])
+    spell = [sg + m + e for m in mant for e in exps for sg in (("", "-", "+", "--", "-+") if thorough else ("", "-"))]
+    spell += ["&HFF", "&H0", "&H7FFF", "&H8000", "&HFFFF", "&H10", "1 E 3", "- 2.5", "1E- 5"]
+    payload = [{"src": "10 DATA ,%s\n20 READ A,B\n" % sp, "opts": {}} for sp in spell]
+    res = common.run_real("w_convert", payload)
+    from harness import b09lex, gen
+    cases = []
+    for sp, r in zip(spell, res):
+        if "out" not in r:
+            rep.count("data-text:refused")
+            continue
+        strs = [t["s"] for l in b09lex.lex_text(r["out"]) if any(t["k"] == "id" and t["v"] == "DATA" for t in l) for t in l if t["k"] == "str"]
+        cases.append({"id": len(cases) + 1, "src": gen.text_bytes(sp), "tgt": strs[1] if len(strs) == 2 else [], "found": 1 if len(strs) == 2 else 0,
+                      "what": "DATA ,%s -> %s" % (sp, " ".join(l for l in r["out"].split("\n") if "DATA" in l.upper())[:80])})
+    if len(cases) < 100:
+        raise common.MachineryError("only %d DATA spellings were converted" % len(cases))
+    # gating canary: the same number with its last decimal dropped must be rejected
+    cases.append({"id": len(cases) + 1, "src": gen.text_bytes("1.25E-5"), "tgt": gen.text_bytes("0.000013"), "found": 1, "what": "canary"})
+    vds = common.judge("DataText", cases, rep, wd)
+    if vds[-1]["ok"]:
+        raise common.MachineryError("canary accepted: %r" % vds[-1])
+    for c, v in zip(cases[:-1], vds[:-1]):
+        n += 1
+        rep.count("runs:data-text")
+        if v["clause"] == "unjudged":
+            rep.count("unjudged:" + v["key"])
+        elif v["ok"]:
+            rep.count("accepted")
+        else:
+            rep.count("rejected")
+            rep.bad(v["key"], v["detail"], {"case": c, "verdict": v})
+    rep.cov["traces_validated_against_impl"] = n
     if n < 100:
         raise common.MachineryError("only %d library runs were judged" % n)
     return rep.finish({"exhaustive": True, "bounds": {"alphabet": "abc" if thorough else "ab", "string_length": 4 if thorough else 3, "start": "1..%d" % (6 if thorough else 4), "count": "0..255"}})
